@@ -59,13 +59,22 @@ func runSolver(ctx context.Context, s solverSpec, query string, timeout time.Dur
 	case "cvc5":
 		args = append([]string{fmt.Sprintf("--tlimit=%d", timeout.Milliseconds())}, args...)
 	}
-	cmd := exec.CommandContext(cctx, s.args[0], args...)
-	cmd.Stdin = strings.NewReader(query)
 	var buf bytes.Buffer
-	cmd.Stdout = &buf
-	cmd.Stderr = &buf
 	start := time.Now()
-	_ = cmd.Run()
+	// a solver process that could not be started at all (fork/exec failure under load) is retried:
+	// it says nothing about the query
+	for attempt := 0; attempt < 4; attempt++ {
+		buf.Reset()
+		cmd := exec.CommandContext(cctx, s.args[0], args...)
+		cmd.Stdin = strings.NewReader(query)
+		cmd.Stdout = &buf
+		cmd.Stderr = &buf
+		err := cmd.Run()
+		if err == nil || buf.Len() > 0 || cctx.Err() != nil {
+			break
+		}
+		time.Sleep(time.Duration(200*(attempt+1)) * time.Millisecond)
+	}
 	secs = time.Since(start).Seconds()
 	out = buf.String()
 	first := strings.TrimSpace(strings.SplitN(strings.TrimSpace(out), "\n", 2)[0])
@@ -75,6 +84,11 @@ func runSolver(ctx context.Context, s solverSpec, query string, timeout time.Dur
 	}
 	if cctx.Err() != nil || strings.Contains(out, "timeout") || strings.Contains(out, "interrupted") {
 		return "timeout", out, secs
+	}
+	if d := os.Getenv("GOVC_ERRDIR"); d != "" {
+		_ = os.MkdirAll(d, 0o755)
+		sum := sha256.Sum256([]byte(query))
+		_ = os.WriteFile(filepath.Join(d, s.name+"-"+hex.EncodeToString(sum[:4])+".txt"), []byte(out+"\n----\n"+query), 0o644)
 	}
 	return "error", out, secs
 }
